@@ -108,6 +108,10 @@ func (st *StateDB) RemoveValidator(mainAddress common.Address) bool {
 		return false
 	}
 	val := value.(*Validator)
+	if val.deleted {
+		// already removed: it is not counted in the statistics any more
+		return false
+	}
 	st.validatorJournal.append(validatorDeleteChange{address: &mainAddress, oldVal: val})
 	val.deleted = true
 
@@ -355,10 +359,14 @@ func (st *StateDB) updateValidator(val *Validator) {
 }
 
 func (st *StateDB) deleteValidator(val *Validator) {
+	// a record marked deleted by RemoveValidator was un-counted there
+	counted := !val.deleted
 	val.deleted = true
 	st.deleteStakingData(val.MainAddress(), validatorFlag)
 	st.validatorIndex.Delete(val.MainAddress())
-	st.decrValidatorsStat(val)
+	if counted {
+		st.decrValidatorsStat(val)
+	}
 }
 
 func (st *StateDB) getValidator(mainAddress common.Address) *Validator {
